@@ -273,9 +273,13 @@ type KeyMaps struct {
 	A map[[2]float32]string
 	I map[IK]string
 	B map[[2]uint8]int
-	C map[CK]int
-	D map[BK]int
 }
+
+// one struct per further key type: a struct's pool is cut at the root, so every map needs
+// a struct of its own to get its multi-entry values explored
+type KMC struct{ M map[CK]int }
+
+type KMD struct{ M map[BK]int }
 
 // WU wraps a type with Equal/Compare methods in a comparable struct; WrapUser holds it next to a slice.
 type WU struct{ V UEq }
@@ -332,16 +336,21 @@ type KR struct {
 	N string
 }
 
-type KeyMaps2 struct {
-	MI8 map[KI8]int
-	MU16 map[KU16]int
-	MF32 map[KF32]int
-	MC64 map[KC64]int
-	MAB map[KAB]int
-	MMS map[KMS]int
-	MU map[KU]int
-	MR map[KR]int
-}
+type KMI8 struct{ M map[KI8]int }
+
+type KMU16 struct{ M map[KU16]int }
+
+type KMF32 struct{ M map[KF32]int }
+
+type KMC64 struct{ M map[KC64]int }
+
+type KMAB struct{ M map[KAB]int }
+
+type KMMS struct{ M map[KMS]int }
+
+type KMU struct{ M map[KU]int }
+
+type KMR struct{ M map[KR]int }
 
 // Box is generic; each instantiation is a named struct of its own.
 type Box[T any] struct {
@@ -615,7 +624,16 @@ func structTys() []*Ty {
 		mk("WrapUser", false, "user"),
 		mk("SameName", false, "ext", "unexported", "extpriv", "samename"),
 		mk("KeyMaps", false),
-		mk("KeyMaps2", false),
+		mk("KMC", false),
+		mk("KMD", false),
+		mk("KMI8", false),
+		mk("KMU16", false),
+		mk("KMF32", false),
+		mk("KMC64", false),
+		mk("KMAB", false),
+		mk("KMMS", false),
+		mk("KMU", false),
+		mk("KMR", false),
 		mk("Box[int]", false, "generic"),
 		mk("Box[Flat]", false, "generic"),
 		mk("Box[[]string]", false, "generic"),
